@@ -169,10 +169,11 @@ def r1_r2(ctx, jm):
 
     # feasibility definition: all(v < eps) with eps = 0
     fn = jm.fn
-    feas = [s for s in stmts_of(fn) if isinstance(s, ast.Assign) and any("['feasible']" in text(t) for t in s.targets) and isinstance(s.value, ast.Call)]
+    TFz = Terms(fn)
+    feas = [s for s in stmts_of(fn) if isinstance(s, ast.Assign) and any("['feasible']" in text(t) for t in s.targets) and isinstance(TFz.expand(s.value, at=s), ast.Call)]
     okf = None
     for s in feas:
-        v = s.value
+        v = TFz.expand(s.value, at=s)
         if access_path(v.func) in ("all", "any") and v.args and isinstance(v.args[0], ast.GeneratorExp):
             g = v.args[0]
             cmp_ = g.elt
